@@ -18,7 +18,7 @@ Three families, all through the real ClientSession <-> AppRunner pipe of c02pipe
                Property: the handler observes a *complete* body only if it is everything the
                application supplied; a failed upload must look incomplete to the server.
 """
-import asyncio, hashlib, io
+import asyncio, hashlib, io, os
 from . import vloop
 from .c02pipe import make_connector
 
@@ -428,9 +428,8 @@ def run_case(case):
             await _run_crlfcut(case, obs)
         else:
             await _run(case, obs)
-    _, excs, quiescent = vloop.run(main)
-    obs["quiescent"] = quiescent
-    return obs
+    from .c02pipe import run_budgeted
+    return run_budgeted(main, obs)
 
 
 def pause_position(case, obs):
@@ -683,8 +682,20 @@ def check(ctx, stop, extra=()):
         if stop():
             ctx.notes.append(f"flow scenarios: stopped after {i} of {len(cases)}: time budget")
             break
-        obs = run_case(case)
-        oracle(ctx, case, obs)
+        try:
+            obs = run_case(case)
+            oracle(ctx, case, obs)
+        except Exception as e:  # noqa: whatever the code under test did must come out as a verdict, never as a crash
+            from .guard import MachineryError
+            if isinstance(e, MachineryError):
+                raise
+            import traceback
+            tb = traceback.extract_tb(e.__traceback__)
+            where = "; ".join(f"{os.path.basename(f.filename)}:{f.lineno} {f.name}" for f in tb[-3:])
+            ctx.violation(f"C02/exchange-broke-the-observer/{case['kind']}/{type(e).__name__}", case,
+                          f"running or judging this exchange raised {type(e).__name__}: {e!s:.200} ({where})")
+            ctx.hit("observer-exception:" + type(e).__name__)
+            continue
         done.append((case, obs))
         p = obs.get("pauses") or [(0, 0)]
         paused = p[0][0] if case.get("dir", "down") == "down" else p[0][1]
